@@ -648,6 +648,7 @@ func constInt(v ssa.Value) (int64, bool) {
 
 // callsIn lists call instructions (call, go, defer) of fn in block order.
 func callsIn(fn *ssa.Function) []ssa.CallInstruction {
+	setIPContext(fn)
 	return callsInD(fn, 0, map[*ssa.Function]bool{fn: true})
 }
 
@@ -833,7 +834,7 @@ func sameValue(a, b ssa.Value, d int) bool {
 	if d > 12 || a == nil || b == nil {
 		return false
 	}
-	if len(paramArg) > 0 {
+	if len(NewFns) > 0 {
 		// a parameter of a new single-call-site helper is the argument at that call (ip.go)
 		if ra, rb := resolveParam(a), resolveParam(b); ra != a || rb != b {
 			return sameValue(ra, rb, d+1)
